@@ -47,6 +47,7 @@ type deferred struct {
 	args []Term // evaluated args (incl. receiver for methods)
 	fnv  Term   // function value for dynamic calls
 	site ssa.Instruction
+	active Term // condition under which the defer statement was executed ("" = always)
 }
 
 // State is the symbolic state at a program point.
@@ -182,7 +183,12 @@ func (u *Unit) define(prefix string, t Term) Term {
 	}
 	u.nsym++
 	name := quoteSym(fmt.Sprintf("%s!%d", prefix, u.nsym))
-	u.cmds = append(u.cmds, fmt.Sprintf("(define-fun %s () %s %s)", name, t.Sort, t.S))
+	if strings.Contains(t.S, "(ite ") {
+		// opaque constant + defining equation: keeps quantifier patterns that mention the name ite-free
+		u.cmds = append(u.cmds, fmt.Sprintf("(declare-const %s %s)\n(assert (= %s %s))", name, t.Sort, name, t.S))
+	} else {
+		u.cmds = append(u.cmds, fmt.Sprintf("(define-fun %s () %s %s)", name, t.Sort, t.S))
+	}
 	return Term{name, t.Sort}
 }
 
